@@ -70,10 +70,26 @@ def run_world(world, simcfg, seed, pre_getters=True, step_cap=None, id_offset=0,
             except SystemExit:
                 out["system_exit"] = True
                 out["where"] = "post_getters"
+            cut = len(w.invocations)
+            fired_before = dict(w.fired)
+            if hooks and "retry" in hooks and not out["system_exit"] and not out["hang"]:
+                # the caller simply calls solve() again on the same object (all planned faults are behind us)
+                w.faults = {}
+                try:
+                    model.solve()
+                    out["retry"] = models.observe(model, cname)
+                except W.Discard:
+                    raise
+                except BaseException as e:
+                    out["retry"] = {"exc": type(e).__name__}
+    try:
+        cut
+    except NameError:
+        cut, fired_before = len(w.invocations), dict(w.fired)
     out["invocations"] = [
         {k: r.get(k) for k in ("j", "owner", "k", "aux", "real", "delivered", "fired", "alarm", "budget", "chain")}
-        for r in w.invocations]
-    out["fired"] = dict(w.fired)
+        for r in w.invocations[:cut]]
+    out["fired"] = fired_before
     out["probes"] = dict(w.probes)
     out["sim_s"] = w.sim_seconds
     out["digest"] = w.history.digest()
